@@ -361,6 +361,30 @@ int main(int argc, char** argv) {
         int64_t n = 0;
         for (auto& k : keys) tree.emplace(string(k), JSON(n++));
       }
+      if (i == 5) {
+        // every byte value once as string content and once inside a key (16 strings of 16 consecutive bytes)
+        tree = JSON::list();
+        JSON d = JSON::dict();
+        for (int b = 0; b < 256; b += 16) {
+          string str;
+          for (int k = 0; k < 16; k++) str.push_back((char)(b + k));
+          tree.emplace_back(JSON(str));
+          d.emplace("key" + str, JSON((int64_t)b));
+        }
+        tree.emplace_back(std::move(d));
+      }
+      if (i == 6) {
+        // every number of the fixed lists: integral-valued floats, exponent forms, extremes
+        tree = JSON::list();
+        for (double v : {0.0, -0.0, 1.4, -10.5, 1e20, 2e6, 1e-7, 123456.0, 100000.0, 999999.0, 1000000.0, 0.1, 1.5e300, 2.5e-300, 1e15, 123.456,
+                 1e5, 1e16, 5e-1, 3.0, -1.0, 1e6, 1e-5, 1e-4, 12345678.0, 0.000123456})
+          tree.emplace_back(JSON(v));
+        for (int64_t v : {(int64_t)0, (int64_t)-1, (int64_t)1, INT64_MIN, INT64_MAX, INT64_MIN + 1, (int64_t)255, (int64_t)-256, (int64_t)1000000, (int64_t)4294967296LL})
+          tree.emplace_back(JSON(v));
+        tree.emplace_back(JSON(true));
+        tree.emplace_back(JSON(false));
+        tree.emplace_back(JSON(nullptr));
+      }
       if (i % nshards != shard) continue;
       for (uint32_t opts = 0; opts < 64; opts++) {
         if (!quick && i > 60 && (opts % 7) != (uint32_t)(i % 7) && opts != 0 && opts != 8) continue;  // thorough: all 64 on the first 60 trees, a rotating eighth afterwards
